@@ -22,7 +22,7 @@ HIST_EVENTS = ["NewFrame", "Batch", "R", "Sv", "FrameStart", "St", "Rewind", "Sa
 
 def _model_checks(ctx):
     q = ctx.quick
-    cfgs = ["MC_LmToProj", "MC_LmToProj_frames"] if q else ["MC_LmToProj_thorough", "MC_LmToProj_frames_thorough", "MC_LmToProj_deep"]
+    cfgs = ["MC_LmToProj", "MC_LmToProj_frames"] if q else ["MC_LmToProj_thorough", "MC_LmToProj_frames_thorough", "MC_LmToProj_segrange", "MC_LmToProj_deep"]
     w = 4 if q else 8
     res = []
     for c in cfgs:
@@ -37,9 +37,10 @@ def _record(ctx, exe, exe_omp):
     q = ctx.quick
     env = {"VERIF_SEED": str(ctx.seed)}
     w = ctx.work
+    os.makedirs(os.path.join(w, "files"), exist_ok=True)
     # OpenMP runs: few threads, no spinning (the machine is shared)
     omp = {"OMP_NUM_THREADS": "3", "OMP_WAIT_POLICY": "passive", "GOMP_SPINCOUNT": "0"}
-    jobs = [("hist", exe, ["hist", os.path.join(w, "hist.ndjson"), 32 if q else 150, 36 if q else 50, 0 if q else 1], {}),
+    jobs = [("hist", exe, ["hist", os.path.join(w, "hist.ndjson"), 32 if q else 150, 36 if q else 50, 0 if q else 1, os.path.join(w, "files")], {}),
             ("allbatch", exe, ["allbatch", os.path.join(w, "allbatch.ndjson"), 2 if q else 6, 20 if q else 40], {}),
             ("long", exe, ["long", os.path.join(w, "long.ndjson"), 1 if q else 3, 2000 if q else 10000], {}),
             ("gradx", exe, ["gradx", os.path.join(w, "gradx.ndjson"), 16 if q else 200, 0 if q else 1], {}),
